@@ -151,8 +151,13 @@ def make_plan(seed: int, tier: str, index: int) -> dict[str, Any]:
         if s.random() < 0.35:
             schedule = {"mode": "writes", "seed": s.getrandbits(32), "p": s.choice([0.1, 0.3, 0.6]),
                         "hold": s.choice([20, 200, 1000, 4000])}
-    return {"property": PROP, "seed": seed, "target": target, "family": fam, "variants": variants,
+    plan = {"property": PROP, "seed": seed, "target": target, "family": fam, "variants": variants,
             "concurrent": concurrent, "schedule": schedule, "permute_seed": f.getrandbits(16)}
+    if f.random() < 0.2:
+        # every variant is read through a reader whose sized reads / readline return short
+        # (legal): inserting junk shifts where those short reads end
+        plan["reader_chunk"] = f.choice([1, 5, 7, 13, 64, 257])
+    return plan
 
 
 def execute(plan: dict[str, Any]) -> dict[str, Any]:
@@ -171,7 +176,13 @@ def execute(plan: dict[str, Any]) -> dict[str, Any]:
         logref = world.current_log()
         n0 = len(logref)
         try:
-            chart = world.parse_text(v["text"])
+            if plan.get("reader_chunk"):
+                from chartparse.chart import Chart
+                from detsim import simfs
+
+                chart = Chart.from_file(simfs.SimText(v["text"], chunk=int(plan["reader_chunk"])))
+            else:
+                chart = world.parse_text(v["text"])
             out: dict[str, Any] = {"kind": "ok", "digest": rng.digest(observe_chart(chart))}
             if fam == "song":
                 o = observe_chart(chart)
@@ -274,6 +285,7 @@ def execute(plan: dict[str, Any]) -> dict[str, Any]:
                     f"gives {_short(r)} but variant {like} gives {_short(ref)}")
     probes = dict(mon.probes)
     probes["dispatcher_calls"] = len(mon.calls)
+    probes["short_reading_reader_runs"] = 1 if plan.get("reader_chunk") else 0
     sched.record("violations", [x["sig"] for x in violations])
     return {
         "violations": violations[:4],
